@@ -2,6 +2,7 @@ import SqlgrepModel.Lemmas.ValueOrder
 import SqlgrepModel.Lemmas.FloatOrder
 import SqlgrepModel.Lemmas.NumericOrder
 import SqlgrepModel.Lemmas.UniqueValues
+import SqlgrepModel.Lemmas.CompareIntFloat
 /-
 C16 — value equality, ordering and hashing agree and form a total order.
 
@@ -204,6 +205,31 @@ theorem int_vs_nonfinite_real (i : Int) (b : Nat) :
   · simp [compareValues, F64.cmpIntReal_nan i b h, Ordering.swap]
   · simp [compareValues, F64.cmpIntReal_inf i b h, s, Ordering.swap]
   · simp [compareValues, F64.cmpIntReal_inf i b h, s, Ordering.swap]
+
+/-- **The algorithm `compare_int_float` runs is the exact comparison** (audit-2 M8). `F64.cmpIntReal`, which
+`compareValues` calls and the theorems above are about, is written as the specification (cross-multiplied exact integer
+arithmetic). `F64.compareIntFloatAlgo` (`Model/CompareIntFloat.lean`) is the code's algorithm step by step on the bit
+pattern: `is_nan`, the threshold tests `y >= 2^63` and `y < -2^63` (IEEE comparisons), `trunc` (mantissa shifted by the
+exponent, fraction bits dropped), the saturating cast `as i64`, `x.cmp(..)`, and on equality the sign of the dropped
+fraction `y - trunc y`. For EVERY i64 `i` and EVERY bit pattern `n` the two are equal, so every INT×REAL comparison
+`compareValues` makes is the one the algorithm computes. The driver executes `compareIntFloatAlgo` for the `cmpir` cases
+of C16 (INT edges × neighbouring REALs, answered by the real `compare_values`): the correspondence check ties the
+ALGORITHM to the code, this theorem ties it to the specification. -/
+theorem int_real_comparison_algorithm_is_exact (i : Int) (n : Nat) (hi : -2 ^ 63 ≤ i ∧ i < 2 ^ 63) :
+    F64.compareIntFloatAlgo i n = F64.cmpIntReal i n ∧
+    compareValues (.int i) (.real n) = F64.compareIntFloatAlgo i n ∧
+    compareValues (.real n) (.int i) = (F64.compareIntFloatAlgo i n).swap := by
+  have h := F64.compareIntFloatAlgo_eq_cmpIntReal i n hi
+  exact ⟨h, by rw [h]; rfl, by rw [h]; rfl⟩
+
+/-- … hence, on finite REALs, the algorithm's answer is the comparison of the exact values -/
+theorem int_real_algorithm_compares_values (i : Int) (n : Nat) (hi : -2 ^ 63 ≤ i ∧ i < 2 ^ 63)
+    (hn : F64.isFinite n = true) : F64.compareIntFloatAlgo i n = Dy.cmp (Dy.ofInt i) (F64.value n) := by
+  rw [F64.compareIntFloatAlgo_eq_cmpIntReal i n hi, F64.cmpIntReal_eq_value_cmp i n hn]
+
+/-- the side condition is satisfiable and the algorithm separates `2^53 + 1` from `2^53` -/
+example : (-2 ^ 63 ≤ (9007199254740993 : Int) ∧ (9007199254740993 : Int) < 2 ^ 63) ∧
+    F64.compareIntFloatAlgo 9007199254740993 0x4340000000000000 = .gt := by decide +kernel
 
 /-- **The WHERE order is a total preorder on numbers** — all INTs and all REAL bit patterns (±0, subnormals,
 ±inf and NaN included, NaN being one class above everything), across all eight INT/REAL mixes of a triple:
